@@ -10,7 +10,7 @@ use crate::env::{self, Mode};
 use crate::ledger::{self, Doc};
 use crate::rng::Rng;
 use crate::sexp::{atom, node, num, st, Sexp};
-use crate::streams::c04::{decode_fault, fault_sexp, gen_clean, plant_fault, FAULT_KINDS};
+use crate::streams::c04::{decode_fault, fault_sexp, gen_clean, gen_opts, plant_fault, FAULT_KINDS};
 use crate::xml;
 use crate::{Case, Stream};
 use qmluic::typemap::TypeMap;
@@ -86,15 +86,20 @@ impl Stream for C20 {
         for k in 0..n {
             let mut rng = Rng::fork(seed, "c20", k as u64);
             let (root, records) = gen_clean(&mut rng);
+            let opts = gen_opts(&mut rng);
             for j in 0..per_doc {
                 let kind = (k * per_doc + j) % FAULT_KINDS;
-                let Some((froot, fault)) = plant_fault(&mut rng, &root, kind) else { continue };
-                let labels = vec![format!("fault:{}", fault.name), format!("at:{}", root.pre_order()[fault.obj].class)];
-                let fdoc = Doc::build(&froot, &records, std::slice::from_ref(&fault));
+                let Some((froot, faults)) = plant_fault(&mut rng, &root, kind) else { continue };
+                let fault = &faults[0];
+                let mut labels = vec![format!("fault:{}", fault.name), format!("at:{}", root.pre_order()[fault.obj].class)];
+                if faults.len() > 1 {
+                    labels.push(format!("planted{}", faults.len()));
+                }
+                let fdoc = Doc::build_opts(&froot, &records, &faults, opts);
                 cases.push(Case { kind: "model", labels: labels.clone(), request: fdoc.request(Mode::Omit) });
                 // oracle on a variant with anonymous objects
                 let mut l2 = labels.clone();
-                let (req, anon) = local_case(seed, (k * per_doc + j) as u64, &root, &froot, &fault, true);
+                let (req, anon) = local_case(seed, (k * per_doc + j) as u64, &root, &froot, &faults, opts, true);
                 l2.push(format!("anonymous{}", anon.min(9)));
                 cases.push(Case { kind: "oracle", labels: l2, request: req });
             }
@@ -118,7 +123,8 @@ impl Stream for C20 {
 
 /// The `c20-local` request for (fault-free root, faulted root, fault); with `anon` a third of the unreferenced objects
 /// lose their ids (the same ones in both documents).  Returns the request and the number of anonymous objects.
-pub fn local_case(seed: u64, index: u64, root: &Obj, froot: &Obj, fault: &crate::ledger::Fault, anon: bool) -> (Sexp, usize) {
+pub fn local_case(seed: u64, index: u64, root: &Obj, froot: &Obj, faults: &[crate::ledger::Fault], opts: crate::ledger::DocOpts, anon: bool) -> (Sexp, usize) {
+    let fault = &faults[0];
     let mut referenced = BTreeSet::new();
     referenced_ids(root, &mut referenced);
     let target_id = root.pre_order()[fault.obj].id.clone();
@@ -134,7 +140,8 @@ pub fn local_case(seed: u64, index: u64, root: &Obj, froot: &Obj, fault: &crate:
         let mut idx = fault.obj;
         remove_nth(&mut free, &mut idx);
     }
-    let fd = Doc::build(&faulted, &[], std::slice::from_ref(fault));
+    let fd = Doc::build_opts(&faulted, &[], faults, opts);
+    let free_src = Doc::build_opts(&free, &[], &[], opts).src;
     let mut ids = vec![];
     all_ids(&free, &mut ids);
     let n_anon = free.pre_order().iter().filter(|o| o.id.is_none()).count();
@@ -143,9 +150,10 @@ pub fn local_case(seed: u64, index: u64, root: &Obj, froot: &Obj, fault: &crate:
         "c20-local",
         vec![
             node("src", vec![st(fd.src.clone())]),
-            node("free", vec![st(free.to_qml())]),
+            node("free", vec![st(free_src)]),
             node("ids", ids.into_iter().map(st).collect()),
             fault_sexp(&fd, fault, false),
+            crate::streams::c04::also_sexp(&fd, faults),
             node("at", vec![st(at)]),
             node("lost", vec![st(fault.lhs.split('.').next().unwrap_or("").to_owned())]),
         ],
@@ -182,14 +190,14 @@ fn witness_request(name: &str) -> Sexp {
             let free = grid(Obj::new("QLabel").with_id("a").bind("QLayout.row", "3"));
             let faulted = grid(Obj::new("QLabel").with_id("a").bind("QLayout.row", "3").bind("QLayout.row", "3"));
             let f = mk("duplicated-attached-binding", 2, "QLayout.row", "3", base.clone(), true, "duplicated binding", (true, true, true));
-            local_case(0, 0, &free, &faulted, &f, false).0
+            local_case(0, 0, &free, &faulted, std::slice::from_ref(&f), crate::ledger::DocOpts::default(), false).0
         }
         // F20
         "separator-plus-fault" => {
             let free = root(vec![Obj::new("QAction").with_id("a").bind("separator", "true")]);
             let faulted = root(vec![Obj::new("QAction").with_id("a").bind("separator", "true").bind("text", "42")]);
             let f = mk("faulty-binding-on-separator", 1, "text", "42", LeafSpec { konst: Konst::Fail, ret_ok: false, ..base.clone() }, false, "expression type mismatch", (true, true, true));
-            local_case(0, 0, &free, &faulted, &f, false).0
+            local_case(0, 0, &free, &faulted, std::slice::from_ref(&f), crate::ledger::DocOpts::default(), false).0
         }
         // F21
         "dynamic-type-mismatch" => {
@@ -197,7 +205,7 @@ fn witness_request(name: &str) -> Sexp {
             let free = doc(Obj::new("QLabel").with_id("l"));
             let faulted = doc(Obj::new("QLabel").with_id("l").bind("text", "srcSpin.value"));
             let f = mk("dynamic-type-mismatch", 2, "text", "srcSpin.value", LeafSpec { konst: Konst::Dyn, ret_ok: false, ..base.clone() }, false, "expression type mismatch", (true, true, true));
-            local_case(0, 0, &free, &faulted, &f, false).0
+            local_case(0, 0, &free, &faulted, std::slice::from_ref(&f), crate::ledger::DocOpts::default(), false).0
         }
         _ => node("bad-request", vec![]),
     }
@@ -327,8 +335,21 @@ fn local_oracle(tm: &TypeMap, args: &[Sexp]) -> Sexp {
             if omit_inside.is_empty() { "nothing for this binding".to_owned() } else { format!("{omit_inside:?}") }
         ));
     }
-    if f.reported.2 && !omit_inside.iter().any(|m| m.contains(&f.message)) {
-        return fail(format!("fault {}: error '{}' not reported in omit mode; got {:?}", f.name, f.message, a.diags.iter().map(|d| d.message.clone()).collect::<Vec<_>>()));
+    // the planted error(s) are reported (the fault-free twin has no error, so any error of that class stems from the fault;
+    // whether the range lies inside the faulty binding is C04's clause)
+    let mut planted = vec![(f.range.0, f.range.1, f.message.clone())];
+    for x in arg(args, "also") {
+        let l = x.as_list().unwrap();
+        planted.push((l[0].as_usize().unwrap(), l[1].as_usize().unwrap(), l[2].as_str().unwrap().to_owned()));
+    }
+    if f.reported.2 {
+        for (k, (s, e, message)) in planted.iter().enumerate() {
+            let here = a.diags.iter().any(|d| d.is_error && *s <= d.start && d.end <= *e && d.message.contains(message));
+            let n_class = a.diags.iter().filter(|d| d.is_error && d.message.contains(message)).count();
+            if !here && (k > 0 || n_class == 0 || planted.len() > 1) {
+                return fail(format!("fault {} (planted binding {k}): error '{message}' not reported in omit mode; got {:?}", f.name, a.diags.iter().map(|d| d.message.clone()).collect::<Vec<_>>()));
+            }
+        }
     }
     let (ta, tb) = (xml::parse(ua).expect("well-formed"), xml::parse(ub).expect("well-formed"));
     let render = |t: &xml::Element, o: CanonOpts| {
